@@ -7,6 +7,7 @@ CONSTANTS
   MaxAns = 3
   Bursts = {99, 100}
   FaultsOn = TRUE
+  RcKeys <- RcKeysQuick
   Retries = 1
   T0 = 1000000
 SPECIFICATION Spec
